@@ -485,6 +485,7 @@ fn generate_tiny(rng: &mut Rng) -> (HistScenario, String) {
         header_one_line: false,
         members_one_line: false,
         banner: None,
+        crlf: false,
     };
     let uses = |ty: &str| {
         vec![gen::Member::Method {
